@@ -42,7 +42,8 @@ func init() {
 		it("parse", "inStringSlice"),
 		it("parse", "tree.parseAutoescape"),
 		it("parse", "tree.boolAttr"),
-		tbl("parse", "precedence"),
+		// precedence[tok.typ]: a map literal, or a function of the item type in its role
+		{dir: "parse", key: "lookup:precedence", cfg: &gtCfg{alts: []string{"precedenceOf"}, sig: "func(itemType) int"}},
 		tbl("parse", "specialChars"),
 	})
 	gtFamily("72-gotrans-rawtext-quote", []gtItem{
@@ -151,7 +152,7 @@ func init() {
 	// soyhtml/directives.go: value.String() of the printed value is val_string; the rune-boundary loop runs at most
 	// maxLen+1 times: C06 C16
 	gtFamily("81-gotrans-directives", []gtItem{
-		{dir: "soyhtml", key: "directiveTruncate", cfg: &gtCfg{fuel: map[int]string{1: "maxLen + 2"}}},
+		{dir: "soyhtml", key: "directiveTruncate", cfg: &gtCfg{fuel: map[int]string{1: "@var + 2"}}},
 		it("soyhtml", "directiveInsertWordBreaks"),
 		it("soyhtml", "directiveChangeNewlineToBr"),
 	})
